@@ -1,9 +1,9 @@
 #!/bin/bash
-# tools/run_seed.sh <seed_id> <Cxx> [tier]  -- applies /verif/seeded/<seed_id>/patch.diff in a scratch worktree and runs the check on it
+# [SEEDDIR=/verif/benign] tools/run_seed.sh <seed_id> <Cxx> [tier]  -- applies /verif/seeded/<seed_id>/patch.diff in a scratch worktree and runs the check on it
 ID=$1; PROP=$2; TIER=${3:-quick}
 W=/tmp/runseed_${ID}_$$
 git -C /repo worktree add --detach "$W" HEAD -q >/dev/null 2>&1
-(cd "$W" && git apply --whitespace=nowarn /verif/seeded/$ID/patch.diff) || { echo "patch does not apply"; git -C /repo worktree remove --force "$W"; exit 2; }
+(cd "$W" && git apply --whitespace=nowarn ${SEEDDIR:-/verif/seeded}/$ID/patch.diff) || { echo "patch does not apply"; git -C /repo worktree remove --force "$W"; exit 2; }
 cd /verif && VERIF_EVIDENCE_DIR=/tmp/verif_seed_evidence VERIF_REPO="$W" ./check $PROP --tier $TIER > /tmp/runseed_${ID}.out 2> /tmp/runseed_${ID}.err; rc=$?
 echo "seed $ID vs $PROP ($TIER): rc=$rc $(grep -c '^VIOLATION' /tmp/runseed_${ID}.out) VIOLATION lines | $(grep '^VIOLATION' /tmp/runseed_${ID}.out | head -1)"
 grep -A0 "^  " /tmp/runseed_${ID}.err | head -3
